@@ -376,3 +376,14 @@ CHECKS['C11'].update(text=CHECKS['C11']['text'] + ' M6 (free receives the alloca
 CHECKS['C19'].update(text=CHECKS['C19']['text'] + ' W5: the result of (v)snprintf is accepted as complete only when strictly below the size '
                      'passed in (qstrdupf / qstrcatf through the shared formatting macro).')
 CHECKS['C20'].update(text=CHECKS['C20']['text'] + ' B1 also requires whole-word comparison in the boolean classifier.')
+
+
+# ---- wave-8 extensions (seeding round for C12 C13 C15 C18 C20) -----------------------------------------------------------------
+CHECKS['C15'].update(text=CHECKS['C15']['text'] + ' A7: an ENOMEM outcome is not overwritten by a later errno store on the same path. A8: in '
+                     'a constructor the half-built object is not handed to a function that dispatches through a method field that has '
+                     'not been assigned yet. M3 (no double free / use after free) is also run here.')
+CHECKS['C20'].update(text=CHECKS['C20']['text'] + ' B6: a per-argument type flag computed by shifting QAC_A1_<T> stays within the per-argument '
+                     'flags of that type (the argument index is bounded at the shift). B7: the line counter is reset on every path from the '
+                     'parse entry to the line parser.')
+CHECKS['C12'].update(text=CHECKS['C12']['text'] + ' W5: formatted values stored through putstrf/addstrf - the shared formatting macro accepts a '
+                     '(v)snprintf result only when strictly below the buffer size.')
